@@ -12,7 +12,10 @@ oracle: no Lean.  Templates are rendered from a generated item tree; every plant
         ground truth = (line of the unique literal in the rendered source, function, messages, the ## translator
         comment block ending on the line before the construct the call sits in).  Both extractors must report
         every planted call exactly once at its line with its comments and nothing from decoys.  The recorded
-        witnesses of known_findings.json and of the repaired defects are replayed first (witness_cases).
+        witnesses of known_findings.json and of the repaired defects are replayed first (witness_cases), followed by
+        linebreak_like_witnesses(): <% %> / <%! %> blocks with a form-feed page break between statements and with each of
+        VT FF FS GS RS NEL U+2028 U+2029 inside a Python comment / string literal - none of them ends a template line,
+        so the calls below keep their lines (sites wrong-line:code, wrong-line:code!, extractor-raises:*).
         A mismatch is first established against this ground truth; only for naming its site the oracle also
         carries a transcription of the *recorded* defective behaviour (recorded_comment_behaviour for the comment
         window, rec_off for Python in tag attributes): a mismatch counts as one of the recorded findings only if it
@@ -33,7 +36,9 @@ from harness.common import enc, dec, ddmin
 RULE = ("templates rendered from a random item tree: text / ## comments / <%doc> / <%text> (all with decoy calls), "
         "mixed text+${} lines (multi-line expressions, filters, calls in filters), % control blocks (if/elif/else, for, "
         "while, with, try/except; backslash continuations), <% %> and <%! %> blocks (inline and multi-line, empty and "
-        "whitespace-only leading lines, blanks after the opening delimiter, margins; the same in front of expression "
+        "whitespace-only leading lines, blanks after the opening delimiter, margins; form-feed page-break lines and "
+        "FF/VT/FS/GS/RS/NEL/U+2028/U+2029 inside Python comments and string literals below the first statement; "
+        "the same leading blanks in front of expression "
         "bodies and <%call expr>), <%def> / <%block> / <%page> / <%call> / <%ns:def> (single- and multi-line tags, "
         "multi-line attribute values, attributes on later lines), <%namespace> with nested defs, include/inherit, "
         "<%page>/<%inherit> written with a body; "
@@ -81,9 +86,10 @@ ENC_CHARS = {
 class Gen:
     """phase 1: a random item tree (pure JSON-able data, every random choice is stored in it)"""
 
-    def __init__(self, rng, charset, tags, wild=False, size=6):
+    def __init__(self, rng, charset, tags, wild=False, size=6, exotic=""):
         self.rng = rng
         self.charset = charset
+        self.exotic = exotic    # characters str.splitlines() breaks at but that do NOT end a template line
         self.tags = tags
         self.wild = wild
         self.size = size
@@ -293,6 +299,24 @@ class Gen:
                     lines.append(margin + "# " + r.choice(self.tags + ["plain"]) + " py comment %d" % self.uid())
                 else:
                     lines.append(margin + r.choice(["import os", "k = 1", "def g(a): return a", "t = (1, 2)"]))
+            first = next((i for i, l in enumerate(lines) if l.strip(" \t")), None)
+            if self.exotic and first is not None and r.random() < 0.2:
+                # a character str.splitlines() breaks at (form feed, VT, FS/GS/RS, NEL, LS, PS) below the first
+                # statement: a page-break line, or inside a Python comment / a string literal.  None of them ends a
+                # template line, so every planted call below keeps its line.  (Not above the first statement: a bare
+                # form-feed line there fixes the margin at "" - outside this property.)
+                ch = r.choice(self.exotic)
+                kind = r.choice(["ff-line", "ff-margin", "cmt", "cmt", "cmt0", "str"])
+                if kind == "str":
+                    lines.append(margin + "s%d = %sa%sb%s" % (self.uid(), q, ch, q))
+                else:
+                    new = {"ff-line": "\x0c", "ff-margin": margin + "\x0c",
+                           "cmt": margin + "# sec" + ch + r.choice(["part", " tion", "x = 1"]),
+                           "cmt0": "#" + ch + "z"}[kind]
+                    at = r.randint(first + 1, len(lines))
+                    # (an empty line below a Python comment: Lingua's Python finder takes a comment on the line directly
+                    # above a call as that call's comment - finder behaviour, see ASSUMPTIONS - so it is kept apart)
+                    lines[at:at] = [new, ""] if kind.startswith("cmt") else [new]
             src = r.choice(["", "", "", " ", "\t", "  "]) + "\n" + "\n".join(lines) + "\n" + r.choice(["", margin])   # (blanks after "<%")
         return {"t": "code", "module": r.random() < 0.3, "src": src, "calls": calls,
                 "tail": r.choice(["", "", " after"]), "ind": r.choice(["", "", "  "])}
@@ -981,7 +1005,7 @@ def make_case(rng, wild, size):
     if wild:
         tagsets += [["NOTE TO:"], []]
     tags = rng.choice(tagsets)
-    g = Gen(rng, charset, tags or ["TR:"], wild=wild, size=size)
+    g = Gen(rng, charset, tags or ["TR:"], wild=wild, size=size, exotic=EXOTIC if encoding == "utf-8" else EXOTIC_ASCII)
     tree = g.seq(0, rng.randint(1, size))
     return {"tree": tree, "tags": tags, "enc_mode": enc_mode, "crlf": rng.random() < 0.3,
             "cfg_ws": wild and rng.random() < 0.3}
@@ -1228,6 +1252,7 @@ def run_flavor_real(impl, flavor, case):
 
 UNCLASSIFIED = ("comments-differ", "comments-unexpected", "comments-missing")
 EXOTIC = "\x0b\x0c\x1c\x1d\x1e\x85\u2028\u2029"
+EXOTIC_ASCII = "\x0b\x0c\x1c\x1d\x1e"      # the ones every codec of ENC_CHARS can write
 
 
 def _map_cmt(node, f):
@@ -1630,6 +1655,37 @@ def _cm(text):
     return {"t": "cmt", "ind": "", "sp": " ", "text": text}
 
 
+def _code(src, keys, module=False):
+    return {"t": "code", "module": module, "src": src, "calls": [k if isinstance(k, dict) else _c(k) for k in keys], "tail": "", "ind": ""}
+
+
+def linebreak_like_witnesses():
+    """<% %> / <%! %> blocks holding a character str.splitlines() breaks at - a form-feed page break between
+    statements, or any of VT FF FS GS RS NEL LS PS inside a Python comment / a string literal.  A template line ends
+    at a line feed only, so every call below such a character is still written on (and must be reported at) the line
+    counted in line feeds; the expected lines come from the position of the unique literal in the rendered source."""
+    def case(tree):
+        return {"tree": tree, "tags": ["TR:"], "enc_mode": "str", "crlf": False}
+    out = [
+        # page breaks: indented inside <%! %>, at column 0 followed by a comment inside <% %>
+        case([_code("\n    k = 1\n    \x0c\n    t = _('m20 w')\n", ["m20 w"], True),
+              _x("_('m21 w')", [_c("m21 w")]),
+              _code("\n    a = _('m22 w')\n\x0c\n    # python comment\n\n    b = _('m23 w')\n    c = _('m24 w')\n",
+                    ["m22 w", "m23 w", "m24 w"]),
+              _x("_('m25 w')", [_c("m25 w")])]),
+        dict(case([_code("\n  a = _('m26 w')\n  \x0c\n  b = gettext('m27 w')\n", ["m26 w", _c("m27 w", "gettext")])]), crlf=True),
+    ]
+    for i, ch in enumerate(EXOTIC):
+        a, b, c = "m%d w" % (30 + 3 * i), "m%d w" % (31 + 3 * i), "m%d w" % (32 + 3 * i)
+        # inside a Python comment, between two calls (an empty line keeps the comment from being taken as the
+        # call's own comment by Lingua's Python finder)
+        out.append(case([_code("\n  a = _('%s')\n  # sec%spart\n\n  b = _('%s')\n" % (a, ch, b), [a, b], i % 2 == 1),
+                         _x("_('%s')" % c, [_c(c)])]))
+        # inside a string literal
+        out.append(case([_code("\n  s = 'x%sy'\n  b = _('%s')\n" % (ch, a), [a], i % 2 == 0)]))
+    return out
+
+
 def witness_cases():
     """the recorded witnesses of known_findings.json as item trees: replayed by the oracle on every run"""
     def case(tree, tags=("TR:",)):
@@ -1666,7 +1722,7 @@ def witness_cases():
         case([_x("_('m10 w')", [_c("m10 w")], {"src": "f(_('m11 w'))", "calls": [_c("m11 w")], "nl": True})]),
         # repaired: codec configured as input_encoding only (0b42cfd)
         dict(case([_x("_('m12 K\u00f6ln')", [_c("m12 K\u00f6ln")])]), enc_mode="inopt:latin-1"),
-    ]
+    ] + linebreak_like_witnesses()
 
 
 def run(ctx):
